@@ -433,6 +433,22 @@ func pipeFamilies(w *world) []*Family {
 			})
 		}
 	})
+	add("after-handshake-rlp", 25, func(th bool, emit func(func() Case)) {
+		// thorough: the generic adversarial payloads for every code through the whole stack
+		if !th {
+			return
+		}
+		for code := uint32(0); code <= 0x1f; code++ {
+			for _, p := range rlpPayloads(false) {
+				if len(p.b) > 4096 {
+					continue
+				}
+				emit(func() Case {
+					return pipe(fmt.Sprintf("pipe/after-handshake-rlp/%02x/%s", code, p.name), pipeOpt{hsCode: 0x02, hsPayload: hs.payload, msgs: []wire{{code, p.b}}})
+				})
+			}
+		}
+	})
 	add("write-fault", 1500, func(th bool, emit func(func() Case)) {
 		// every request that makes the node write, with the write failing
 		faults := []struct {
